@@ -169,7 +169,7 @@ def rule_stream_past(ctx, m, files=("Digit.hpp",)):
     from qlib.zone import ContractTable, Contract
     from qlib import zonecheck
     from tables.contracts import CONTRACTS
-    r = Rule("ZB-past", "no raw access to the stream's buffer is provably at or beyond Length() on some path", floor=10)
+    r = Rule("ZB-past", "no raw access to the stream's buffer is provably at or beyond Length(), or in front of the number being formatted, on some path", floor=10)
     for f in m.functions:
         if f.inst or not f.cfg or not any(f.file.endswith("/" + x) for x in files):
             continue
@@ -180,7 +180,11 @@ def rule_stream_past(ctx, m, files=("Digit.hpp",)):
         bufs = {}
         for p in ps:
             bufs["x:%s.Storage()" % p["n"]] = "%s.Length()" % p["n"]
-        tab[f.q + "/%d" % len(f.params)] = Contract(buffers=bufs, accessor_model="Length")
+        lows = {}
+        if any(p_["n"] == "started_at" for p_ in f.params):
+            for p_ in ps:
+                lows["x:%s.Storage()" % p_["n"]] = "started_at"
+        tab[f.q + "/%d" % len(f.params)] = Contract(buffers=bufs, accessor_model="Length", lower_bounds=lows)
         try:
             obs, stats, _ = zonecheck.analyse(m, f, ContractTable(tab))
         except Exception as e:   # noqa
@@ -193,8 +197,10 @@ def rule_stream_past(ctx, m, files=("Digit.hpp",)):
             n_acc += 1
             ctx.note_fn(f)
             past = bool(o.detail.get("past"))
-            r.ob(f.sig, o.construct, not past, ("index is proven >= Length() on a path: " + o.why) if past else "no path proves the index at or beyond Length() (in-range not decided)", o.loc,
-                 nontrivial=past)
+            below = bool(o.detail.get("below"))
+            r.ob(f.sig, o.construct, not (past or below), ("index is proven >= Length() on a path: " + o.why) if past else
+                 (("the access lies in front of the number being formatted (what the stream held before the call): " + o.why) if below else
+                  "no path proves the index outside [started_at, Length()) (in-range not decided)"), o.loc, nontrivial=past or below)
     return r
 
 
